@@ -20,7 +20,7 @@ TNext ==
   \/ IsEv("SendRet") /\ SendRet(Ev.ret)
   \/ IsEv("W") /\ SysWrite(Ev.ret, Ev.runs, Ev.again)
   \/ IsEv("R") /\ SysRead(Ev.ret, Ev.runs, Ev.again)
-  \/ IsEv("PRead") /\ PeerRead(Ev.n, Ev.runs, Ev.eof)
+  \/ IsEv("PRead") /\ PeerRead(Ev.n, Ev.runs, Ev.eof, Ev.err # 0)
   \/ IsEv("PWrite") /\ PeerWrite(Ev.ret)
   \/ IsEv("PShut") /\ PeerShut(Ev.how)
   \/ IsEv("Recv") /\ RecvCall(Ev.len, Ev.runs)
